@@ -34,7 +34,7 @@ func TestC04_Isolation(t *testing.T) {
 // that the source announced.
 func c04Concurrent(rt *rapid.T, ev *evid.Rec) {
 	o := machineOpts{MaxDecls: 4, Kinds: []string{"log", "tx", "trace"}, MaxBatch: 6, MaxConc: 4, InitBlocks: [2]int{4, 10}, Starts: []string{"one", "mid"},
-		NeedParent: true, SameEvent: true, Filters: true, ShareTable: true}
+		NeedParent: true, SameEvent: true, Filters: true, ShareTable: true, TwoSources: true}
 	m := newMachine(rt, o)
 	defer m.Close()
 	w := m.w
@@ -80,13 +80,19 @@ func c04Concurrent(rt *rapid.T, ev *evid.Rec) {
 		}(p)
 	}
 	s := w.Sources[0]
-	for _, g := range grows {
+	for gi, g := range grows {
 		time.Sleep(time.Duration(1+len(g)) * time.Millisecond)
-		s.Node.Lock()
-		for _, txs := range g {
-			s.Node.Chain.Append(txs)
+		// both sources grow (the same contents: one integration on two sources decodes look-alike logs)
+		for si, sx := range w.Sources {
+			if si > 0 && gi%2 == 1 {
+				continue
+			}
+			sx.Node.Lock()
+			for _, txs := range g {
+				sx.Node.Chain.Append(cloneTxs(txs))
+			}
+			sx.Node.Unlock()
 		}
-		s.Node.Unlock()
 	}
 	time.Sleep(10 * time.Millisecond)
 	close(stop)
@@ -117,9 +123,11 @@ func c04Concurrent(rt *rapid.T, ev *evid.Rec) {
 		if len(sh) == 0 {
 			continue
 		}
-		b := s.Node.Chain.At(sn)
-		if r["src_name"] != s.Name {
-			continue
+		var b *sim.Block
+		for _, sx := range w.Sources {
+			if r["src_name"] == sx.Name {
+				b = sx.Node.Chain.At(sn)
+			}
 		}
 		if b == nil || string(b.Hash) != string(sh) {
 			fail("position %v of %v/%v records the head (%d, %x): the source never announced that pair (block %d has hash %x)", r["num"], r["src_name"], r["ig_name"], sn, sh, sn, func() []byte {
